@@ -3167,6 +3167,246 @@ theorem approved_resume_on_contract (v : Variant) (hv : v.fixDefrag = true) (hat
   exact approved_resume_sees_complete_window c seq pos w hinv hw (by rw [hcv]; exact hv) (by rw [hcv]; exact hfr) hr hpb hnd hres
     b ids hids ht hok p h1 h2
 
+/-! ### any `Remove` followed by the documented recovery is a clean clear -/
+
+/-- spec level: removing a range and then everything of the sequence = removing everything of the sequence -/
+theorem specRemove_then_clear (s s1 : Spec) (seq : Nat) (b e : Int) (hb : 0 ≤ b)
+    (hpos : ∀ x ∈ s, seq ∈ x.seqs → 0 ≤ x.pos ∧ x.pos < maxInt32)
+    (hshift : ∀ x ∈ s, seq ∈ x.seqs → x.pos + (b - e) < maxInt32)
+    (h1 : KV.remove s seq b e = some s1) :
+    KV.remove s1 seq 0 maxInt32 = KV.remove s seq 0 maxInt32 := by
+  have hnr : ∀ (l : Spec), (∀ x ∈ l, seq ∈ x.seqs → x.pos < maxInt32) → l.any (mustRefuse seq 0 maxInt32) = false := by
+    intro l hl
+    rw [List.any_eq_false]
+    intro x hx
+    by_cases hs : seq ∈ x.seqs
+    · have := hl x hx hs
+      have h3 : ¬ x.pos ≥ maxInt32 := by omega
+      simp [mustRefuse, h3]
+    · simp [mustRefuse, hs]
+  unfold KV.remove at h1
+  split at h1
+  · cases h1
+  · rename_i hnone
+    cases h1
+    -- pointwise
+    have L_in : ∀ (b e : Int) (x : Entry), seq ∈ x.seqs → (b ≤ x.pos ∧ x.pos < e) →
+        rmEntry seq b e x = (if x.seqs.filter (· ≠ seq) = [] then none else some { x with seqs := x.seqs.filter (· ≠ seq) }) := by
+      intro b e x hs hin; unfold rmEntry; rw [if_pos hs, if_pos hin]
+    have L_out : ∀ (b e : Int) (x : Entry), seq ∉ x.seqs → rmEntry seq b e x = some x := by
+      intro b e x hs; unfold rmEntry; rw [if_neg hs]
+    have hpt : ∀ x ∈ s, (rmEntry seq b e x).bind (rmEntry seq 0 maxInt32) = rmEntry seq 0 maxInt32 x := by
+      intro x hx
+      have hx_nr : mustRefuse seq b e x = false := by
+        have := List.any_eq_false.mp (by simpa using hnone) x hx
+        simpa using this
+      by_cases hs : seq ∈ x.seqs
+      · obtain ⟨hp0, hpm⟩ := hpos x hx hs
+        rw [L_in 0 maxInt32 x hs ⟨hp0, hpm⟩]
+        by_cases hin : b ≤ x.pos ∧ x.pos < e
+        · rw [L_in b e x hs hin]
+          by_cases hd : x.seqs.filter (· ≠ seq) = []
+          · rw [if_pos hd]; rfl
+          · rw [if_neg hd, Option.bind_some]
+            exact L_out 0 maxInt32 _ mem_filter_ne
+        · by_cases hge : x.pos ≥ e
+          · have hsole : x.seqs.filter (· ≠ seq) = [] := by
+              rw [List.filter_eq_nil_iff]
+              intro y hy
+              have hso : sharedOther seq x.seqs = false := by
+                cases hso : sharedOther seq x.seqs with
+                | false => rfl
+                | true => simp [mustRefuse, hs, hin, hge, hso] at hx_nr
+              have := List.any_eq_false.mp hso y hy
+              simpa using this
+            have hre : rmEntry seq b e x = some { x with pos := x.pos + rmOffset b e, shift := x.shift + rmOffset b e } := by
+              unfold rmEntry; rw [if_pos hs, if_neg hin, if_pos hge]
+            have hp1 : 0 ≤ x.pos + rmOffset b e := by unfold rmOffset; split <;> omega
+            have hp2 : x.pos + rmOffset b e < maxInt32 := by
+              unfold rmOffset; split
+              · omega
+              · rename_i hne
+                -- shifted cells exist only when positions move down or stay: begin ≤ end is not assumed, bound by hypothesis
+                exact hshift x hx hs
+            rw [hre, Option.bind_some,
+              L_in 0 maxInt32 { x with pos := x.pos + rmOffset b e, shift := x.shift + rmOffset b e } hs ⟨hp1, hp2⟩,
+              if_pos hsole, if_pos hsole]
+          · have hre : rmEntry seq b e x = some x := by
+              unfold rmEntry; rw [if_pos hs, if_neg hin, if_neg hge]
+            rw [hre, Option.bind_some, L_in 0 maxInt32 x hs ⟨hp0, hpm⟩]
+      · rw [L_out b e x hs, Option.bind_some]
+    have hs1 : ∀ x ∈ s.filterMap (rmEntry seq b e), seq ∈ x.seqs → x.pos < maxInt32 := by
+      intro y hy hsy
+      obtain ⟨x, hx, hxy⟩ := List.mem_filterMap.mp hy
+      unfold rmEntry at hxy
+      split at hxy
+      · rename_i hsx
+        have := hpos x hx hsx
+        split at hxy
+        · simp only at hxy
+          split at hxy
+          · cases hxy
+          · cases hxy
+            exact absurd hsy mem_filter_ne
+        · split at hxy
+          · cases hxy
+            simp only
+            have hsh := hshift x hx hsx
+            unfold rmOffset
+            split <;> omega
+          · cases hxy; exact this.2
+      · cases hxy
+        rename_i hsx
+        exact absurd hsy hsx
+    simp only [KV.remove, hnr _ hs1, hnr s (fun x hx hs => (hpos x hx hs).2), Bool.false_eq_true, if_false,
+      List.filterMap_filterMap]
+    congr 1
+    exact filterMap_congr' hpt
+
+theorem abs_mem_cell (c : Cache) (e : Entry) (he : e ∈ abs c) : ∃ x ∈ c.cells, x.seqs = e.seqs ∧ x.pos = e.pos := by
+  unfold abs at he
+  obtain ⟨⟨x, r⟩, hxr, hent⟩ := List.mem_filterMap.mp he
+  refine ⟨x, (List.of_mem_zip hxr).1, ?_⟩
+  unfold entryOf at hent
+  split at hent
+  · cases hent
+  · cases hent; exact ⟨rfl, rfl⟩
+
+theorem remove_cells_eq (c : Cache) (seq : Nat) (b e : Int) :
+    (Causal.remove c seq b e).1.cells = (removeCells seq b e (rmOffset b e) c.cells).1 := by
+  unfold Causal.remove
+  simp only
+  split
+  · rfl
+  · split
+    · rfl
+    · split
+      · rfl
+      · split <;> rfl
+
+/-- **Any `Remove` followed by the documented recovery is a clean clear** (pinned or repaired, accepted or
+    refused): after `Remove(seq, b, e)` — whatever it answered — `Remove(seq, 0, MaxInt32)` leaves exactly the
+    abstract state that clearing the sequence right away would have left. -/
+theorem remove_then_clear (c : Cache) (seq : Nat) (b e : Int) (h : Inv c) (hl : c.hasLayers = true)
+    (hb : 0 ≤ b) (hbe : b ≤ e) (hpb : PosBound c.cells) (hpos : ∀ x ∈ c.cells, seq ∈ x.seqs → 0 ≤ x.pos) :
+    abs (Causal.remove (Causal.remove c seq b e).1 seq 0 maxInt32).1 = abs (Causal.remove c seq 0 maxInt32).1 := by
+  by_cases hok : (Causal.remove c seq b e).2 = .ok
+  · have hf := remove_fields c seq b e
+    have hinv1 := remove_inv c seq b e h
+    have hpb1 : PosBound (Causal.remove c seq b e).1.cells := by
+      rw [remove_cells_eq]; exact posBound_removeCells seq b e hbe c.cells hpb
+    have a1 := remove_abs c seq b e h.len h.size hl hok
+    have a2 := remove_abs (Causal.remove c seq b e).1 seq 0 maxInt32 hinv1.len hinv1.size (by rw [hf.2.2.1]; exact hl)
+      (remove_inf _ seq 0 hpb1).2.2
+    have a3 := remove_abs c seq 0 maxInt32 h.len h.size hl (remove_inf c seq 0 hpb).2.2
+    have hspec := specRemove_then_clear (abs c) _ seq b e hb
+      (by
+        intro x hx hs
+        obtain ⟨y, hy, hys, hyp⟩ := abs_mem_cell c x hx
+        have := hpos y hy (by rw [hys]; exact hs)
+        have := hpb y hy seq (by rw [hys]; exact hs)
+        omega)
+      (by
+        intro x hx hs
+        obtain ⟨y, hy, hys, hyp⟩ := abs_mem_cell c x hx
+        have := hpb y hy seq (by rw [hys]; exact hs)
+        omega)
+      a1
+    rw [a2, a3] at hspec
+    exact Option.some.inj hspec
+  · exact refused_remove_then_clear c seq b e hb hbe hpb hpos hok
+
+/-- what the recovery needs from a wrapped cache -/
+structure ClearOK (c : Cache) (seq : Nat) : Prop where
+  inv : Inv c
+  layers : c.hasLayers = true
+  bound : PosBound c.cells
+  nonneg : ∀ x ∈ c.cells, seq ∈ x.seqs → 0 ≤ x.pos
+
+/-- the recovery itself (`Remove(seq, 0, MaxInt32)` on every wrapped cache) never fails and clears each cache -/
+theorem wRemove_clear (cs : List Cache) (seq : Nat) (h : ∀ c ∈ cs, PosBound c.cells) :
+    wRemove cs seq 0 maxInt32 = (cs.map (fun c => (Causal.remove c seq 0 maxInt32).1), .ok) := by
+  induction cs with
+  | nil => rfl
+  | cons c rest ih =>
+    have hc := h c (by simp)
+    have hr := removeV_inf c seq 0 hc
+    have hok := (remove_inf c seq 0 hc).2.2
+    unfold wRemove
+    rw [hr]
+    cases hrm : Causal.remove c seq 0 maxInt32 with
+    | mk c1 r =>
+      rw [hrm] at hok
+      simp only at hok
+      subst hok
+      simp only [ih (fun x hx => h x (by simp [hx])), List.map_cons, hrm]
+
+theorem removeV_state_cases (c : Cache) (seq : Nat) (b e : Int) :
+    (removeV c seq b e).1 = (Causal.remove c seq b e).1 ∨ (removeV c seq b e).1 = c := by
+  rcases removeV_cases c seq b e with h | ⟨h, _, _⟩
+  · left; rw [h]
+  · right; exact h
+
+/-- after `WrapperCache.Remove` (any outcome) every wrapped cache still clears to what the original clears to,
+    and keeps its position bound -/
+theorem wRemove_then_clear_each (cs : List Cache) (seq : Nat) (b e : Int) (hb : 0 ≤ b) (hbe : b ≤ e)
+    (h : ∀ c ∈ cs, ClearOK c seq) :
+    (wRemove cs seq b e).1.map (fun c => abs (Causal.remove c seq 0 maxInt32).1)
+      = cs.map (fun c => abs (Causal.remove c seq 0 maxInt32).1) ∧
+    ∀ c ∈ (wRemove cs seq b e).1, PosBound c.cells := by
+  induction cs with
+  | nil => exact ⟨rfl, fun c hc => by simp [wRemove] at hc⟩
+  | cons c rest ih =>
+    have hc := h c (by simp)
+    have ih' := ih (fun x hx => h x (by simp [hx]))
+    have hhead : abs (Causal.remove (removeV c seq b e).1 seq 0 maxInt32).1 = abs (Causal.remove c seq 0 maxInt32).1 ∧
+        PosBound (removeV c seq b e).1.cells := by
+      rcases removeV_state_cases c seq b e with h1 | h1
+      · rw [h1]
+        exact ⟨remove_then_clear c seq b e hc.inv hc.layers hb hbe hc.bound hc.nonneg,
+          by rw [remove_cells_eq]; exact posBound_removeCells seq b e hbe c.cells hc.bound⟩
+      · rw [h1]; exact ⟨rfl, hc.bound⟩
+    unfold wRemove
+    cases hrm : removeV c seq b e with
+    | mk c1 r =>
+      rw [hrm] at hhead
+      simp only at hhead
+      cases r with
+      | ok =>
+        simp only [List.map_cons]
+        refine ⟨by rw [hhead.1, ih'.1], ?_⟩
+        intro x hx
+        rcases List.mem_cons.mp hx with rfl | hx
+        · exact hhead.2
+        · exact ih'.2 x hx
+      | shared =>
+        simp only [List.map_cons]
+        refine ⟨by rw [hhead.1], ?_⟩
+        intro x hx
+        rcases List.mem_cons.mp hx with rfl | hx
+        · exact hhead.2
+        · exact (h x (by simp [hx])).bound
+      | notsup =>
+        simp only [List.map_cons]
+        refine ⟨by rw [hhead.1], ?_⟩
+        intro x hx
+        rcases List.mem_cons.mp hx with rfl | hx
+        · exact hhead.2
+        · exact (h x (by simp [hx])).bound
+
+/-- **WrapperCache under its contract** (F29's guard made a theorem): whatever `WrapperCache.Remove(seq, b, e)`
+    answers — carried out everywhere, or refused by some wrapped cache after others had carried it out — the
+    recovery `cache.go` / `wrapper.go` prescribe, `Remove(seq, 0, MaxInt32)`, cannot fail and leaves EVERY wrapped
+    cache exactly as if the sequence had been cleared right away; the other sequences are never affected. -/
+theorem wrapper_remove_then_clear (cs : List Cache) (seq : Nat) (b e : Int) (hb : 0 ≤ b) (hbe : b ≤ e)
+    (h : ∀ c ∈ cs, ClearOK c seq) :
+    (wRemove (wRemove cs seq b e).1 seq 0 maxInt32).2 = .ok ∧
+    (wRemove (wRemove cs seq b e).1 seq 0 maxInt32).1.map abs
+      = cs.map (fun c => abs (Causal.remove c seq 0 maxInt32).1) := by
+  obtain ⟨h1, h2⟩ := wRemove_then_clear_each cs seq b e hb hbe h
+  rw [wRemove_clear _ seq h2]
+  exact ⟨rfl, by simpa [List.map_map, Function.comp_def] using h1⟩
+
 /-! ### Witnesses of the defects the model shares with the code -/
 
 def fwd (c : Cache) (b : List (Tok × Nat)) : Cache :=
@@ -3392,6 +3632,19 @@ example :
 example :
     (startForward (f14pre { fixDefrag := true }) [⟨0, 2⟩, ⟨0, 3⟩, ⟨0, 4⟩, ⟨0, 5⟩]).2 = .full ∧
     (f14pre { fixDefrag := true }).cells.length = 5 ∧ (abs (f14pre { fixDefrag := true })).length = 2 := by decide
+
+/-- non-vacuity of `wrapper_remove_then_clear` (audited): in F29's state the wrapped removal is refused after the
+    window cache carried it out; layers exist, positions are bounded and non-negative; after the recovery both
+    caches hold exactly what a plain clear of sequence 0 leaves -/
+theorem wrapper_clear_nonvacuous :
+    let mk := fun (w : Option Int) =>
+      Causal.copyPrefix (fwd (fwd (fwd (fwd (Causal.init { atomicRemove := true } w 2 8 8 1 1 true) [(⟨0, 0⟩, 1)]) [(⟨0, 1⟩, 2)]) [(⟨0, 2⟩, 3)]) [(⟨0, 3⟩, 4)]) 0 1 2
+    let cs := [mk (some 1), mk none]
+    (wRemove cs 0 0 1).2 = .shared ∧
+    (∀ c ∈ cs, c.hasLayers = true ∧ (∀ x ∈ c.cells, ∀ s ∈ x.seqs, x.pos < maxInt32) ∧ (∀ x ∈ c.cells, 0 ∈ x.seqs → 0 ≤ x.pos)) ∧
+    ((wRemove cs 0 0 1).1.map (fun c => (abs c).map key)) ≠ (cs.map (fun c => (abs c).map key)) ∧
+    ((wRemove (wRemove cs 0 0 1).1 0 0 maxInt32).1.map (fun c => (abs c).map key))
+      = cs.map (fun c => (abs (Causal.remove c 0 0 maxInt32).1).map key) := by decide
 
 /-- the cache's answers along a history -/
 def acceptTrace : Cache → List HOp → List Bool
